@@ -192,7 +192,11 @@ def _b64_text(vc, content):
     return SStr(A.b64encode_t(content.t))
 
 
-@scenario("request_to_flow.body.base64", functions=[R2F])
+B64_CANDS = [dict(content=c, content_type=t) for c in (b"\x00\xff\x89PNG", b"", b"plain") for t in ("image/png", "", "text/plain; charset=utf-8")]
+TEXT_CANDS = [dict(text=x, content_type=t) for x in ("h\xe9llo", "", "abc") for t in ("text/plain; charset=utf-8", "text/plain; charset=nonexistent", "text/html", "", "application/json")]
+
+
+@scenario("request_to_flow.body.base64", functions=[R2F], candidates=B64_CANDS)
 def s_body_b64(vc):
     """a body exported as base64 (binary content) is imported as exactly those bytes"""
     install_codec_summaries(vc)
@@ -210,7 +214,7 @@ def s_body_b64(vc):
     vc.ensure("status", vc.eq(vc.getattr(r, "status_code"), 200))
 
 
-@scenario("request_to_flow.body.text", functions=[R2F])
+@scenario("request_to_flow.body.text", functions=[R2F], candidates=TEXT_CANDS)
 def s_body_text(vc):
     """a body exported as text is re-encoded with the charset of the Content-Type header; an unknown charset falls back to
     UTF-8 (surrogateescape) instead of failing the import"""
@@ -247,7 +251,7 @@ def s_body_text(vc):
         vc.ensure("fallback_utf8", vc.eq(body, SBytes(_uf("encode_utf-8_surrogateescape", S, S)(text.t))))
 
 
-@scenario("request_to_flow.request_body", functions=[R2F])
+@scenario("request_to_flow.request_body", functions=[R2F], candidates=[dict(post_text=t, x_value=v) for t in ("a=1", "") for v in ("v", "")])
 def s_request_body(vc):
     """postData.text becomes the request body (re-encoded as text); entries without postData have an empty body; the method
     and the request header fields are taken over"""
@@ -287,3 +291,351 @@ def _and2(*conds):
         return False
     rest = [c for c in conds if c is not True]
     return And(*rest) if rest else True
+
+
+# =============================================================================================
+# T2 (bounded): SaveHar.export_har to a real file, then FlowReader on that file
+
+def build_flow(method="GET", url="http://example.com/path?a=1", version="HTTP/1.1", req_headers=(), req_body=b"", status=200, resp_headers=(), resp_raw=b"",
+               marker=None):
+    """a flow the way mitmproxy's HTTP layers produce it: HTTP/1.1 carries a Host header, HTTP/2 and HTTP/3 the :authority;
+    bodies are the raw (content-coded) bytes"""
+    from mitmproxy import http
+    from mitmproxy.test import tflow
+    f = tflow.tflow(resp=True)
+    if method == "CONNECT":
+        host, port = url.split(":")
+        rq = http.Request(host=host, port=int(port), method=b"CONNECT", scheme=b"", authority=url.encode(), path=b"", http_version=version.encode(),
+                          headers=http.Headers(), content=b"", trailers=None, timestamp_start=946681200.0, timestamp_end=946681201.0)
+    else:
+        rq = http.Request.make(method, url, b"", {})
+        rq.timestamp_start, rq.timestamp_end = 946681200.0, 946681201.0
+        rq.http_version = version
+    hs = [(k.encode("utf-8", "surrogateescape"), v.encode("utf-8", "surrogateescape")) if isinstance(k, str) else (k, v) for k, v in req_headers]
+    hostport = rq.host if rq.port in (80, 443) else f"{rq.host}:{rq.port}"
+    if version == "HTTP/1.1":
+        if not any(k.lower() == b"host" for k, _ in hs):
+            hs = [(b"Host", (url if method == "CONNECT" else hostport).encode())] + hs
+    elif method != "CONNECT":
+        rq.authority = hostport
+    if marker is not None:
+        hs.append((b"x-marker", str(marker).encode()))
+    rq.headers = http.Headers(hs)
+    rq.raw_content = req_body
+    f.request = rq
+    rs = http.Response(http_version=version.encode(), status_code=status, reason=b"" if version != "HTTP/1.1" else b"OK",
+                       headers=http.Headers([(k.encode("utf-8", "surrogateescape"), v.encode("utf-8", "surrogateescape")) if isinstance(k, str) else (k, v) for k, v in resp_headers]),
+                       content=None, trailers=None, timestamp_start=946681202.0, timestamp_end=946681203.0)
+    rs.raw_content = resp_raw
+    f.response = rs
+    return f
+
+
+def export_import(flows):
+    """(imported flows, None) or (None, exception): the real export command writing a file, the real reader on that file"""
+    import logging
+    import os
+    import tempfile
+    from mitmproxy import io as mio
+    from mitmproxy.addons import savehar
+    logging.disable(logging.CRITICAL)
+    try:
+        with tempfile.TemporaryDirectory() as d:
+            path = os.path.join(d, "flows.har")
+            try:
+                savehar.SaveHar().export_har(flows, path)
+            except Exception as e:  # noqa: BLE001
+                return None, ("export", e)
+            try:
+                with open(path, "rb") as fo:
+                    return list(mio.FlowReader(fo).stream()), None
+            except Exception as e:  # noqa: BLE001
+                return None, ("import", e)
+    finally:
+        logging.disable(logging.NOTSET)
+
+
+def _drop_cl(fields):
+    return [(k, v) for k, v in fields if k.lower() != b"content-length"]
+
+
+def _decoded(msg):
+    try:
+        return msg.content
+    except ValueError:
+        return None
+
+
+def compare(b, inp, f, g, tags=()):
+    """f: exported flow, g: imported flow.  One check name per clause of the statement; recorded finding classes get their own."""
+    from mitmproxy.net import encoding as E
+    a, c = f.request, g.request
+    if a.method != c.method:
+        b.fail("request.method", inp, f"{a.method!r} -> {c.method!r}")
+    if a.url != c.url:
+        b.fail("request.url", inp, f"{a.url!r} -> {c.url!r}")
+    if a.http_version != c.http_version:
+        b.fail("request.http_version" + ("[KF-C41-1]" if a.http_version == "HTTP/2.0" else ""), inp, f"{a.http_version!r} -> {c.http_version!r}")
+    ah, ch = _drop_cl(a.headers.fields), _drop_cl(c.headers.fields)
+    if ah != ch:
+        # recorded finding classes (each with a check name of its own); anything else is a plain request.headers failure
+        def without(fields, *names):
+            return [(k, v) for k, v in fields if k.lower() not in names]
+        kinds = []
+        if without(ah, b"content-encoding") != ah and not any(k.lower() == b"content-encoding" for k, _ in ch):
+            kinds.append("content_encoding_removed[KF-C41-2]")
+            ah2 = without(ah, b"content-encoding")
+        else:
+            ah2 = ah
+        if ah2 != ch and "body_not_text_in_declared_charset" in tags and without(ah2, b"content-type") == without(ch, b"content-type"):
+            kinds.append("content_type_rewritten[KF-C41-5]")
+            ah2, ch2 = without(ah2, b"content-type"), without(ch, b"content-type")
+        else:
+            ch2 = ch
+        if ah2 != ch2 and _host_not_canonical(a) and without(ah2, b"host") == without(ch2, b"host"):
+            kinds.append("host_header_rewritten[KF-C41-7]")
+            ah2, ch2 = without(ah2, b"host"), without(ch2, b"host")
+        if ah2 != ch2:
+            kinds = [""]
+        for kind in kinds:
+            b.fail("request.headers" + ("/" + kind if kind else ""), inp, f"{ah!r} -> {ch!r}")
+    if a.method in ("POST", "PUT", "PATCH"):
+        da, dc = _decoded(a), _decoded(c)
+        if da is not None and da != dc:
+            b.fail("request.body" + ("/body_declares_charset_or_bom[KF-C41-3]" if "req_body_sniffed" in tags else ""), inp, f"{da!r:.200} -> {dc!r:.200}")
+    x, y = f.response, g.response
+    if y is None:
+        b.fail("response.present", inp, "imported flow has no response")
+        return
+    if x.status_code != y.status_code:
+        b.fail("response.status_code", inp, f"{x.status_code} -> {y.status_code}")
+    if x.http_version != y.http_version:
+        b.fail("response.http_version" + ("[KF-C41-1]" if x.http_version == "HTTP/2.0" else ""), inp, f"{x.http_version!r} -> {y.http_version!r}")
+    xh, yh = list(x.headers.fields), list(y.headers.fields)
+    if xh != yh:
+        name = "response.headers"
+        no_ce = [(k, v) for k, v in xh if k.lower() != b"content-encoding"]
+        had_cl = any(k.lower() == b"content-length" for k, _ in xh)
+        if _drop_cl(no_ce) == _drop_cl(yh):
+            if no_ce != xh:
+                name = "response.headers/content_encoding_removed[KF-C41-2]"
+            elif not had_cl:
+                name = "response.headers/content_length_added[KF-C41-2]"
+            elif "resp_body_sniffed" in tags:
+                name = "response.headers/content_length_changed/body_declares_charset_or_bom[KF-C41-3]"
+            else:
+                name = "response.headers/content_length_changed"
+        b.fail(name, inp, f"{xh!r} -> {yh!r}")
+    dx, dy = _decoded(x), _decoded(y)
+    if dx is not None and dx != dy:
+        b.fail("response.body" + ("/body_declares_charset_or_bom[KF-C41-3]" if "resp_body_sniffed" in tags else ""), inp, f"{dx!r:.200} -> {dy!r:.200}")
+
+
+IMPORT_FAILURE_CLASSES = {"header_bytes_not_utf8": "KF-C41-4", "idn_host": "KF-C41-6", "unsupported_content_coding": "KF-C41-8"}
+
+
+def _host_not_canonical(rq):
+    """the Host header is spelled differently from what the URL yields (explicit default port, upper case)"""
+    h = rq.headers.get("host")
+    if h is None:
+        return False
+    default = {"http": 80, "https": 443}.get(rq.scheme, 443)
+    return h != (rq.host if rq.port == default else f"{rq.host}:{rq.port}")
+
+
+def sniffed(content_type, body):
+    """the body itself (BOM, HTML meta / XML declaration) determines the text codec, not only the Content-Type header"""
+    from mitmproxy.net.http import headers as H
+    try:
+        return H.infer_content_encoding(content_type, body) != H.infer_content_encoding(content_type)
+    except Exception:  # noqa: BLE001
+        return False
+
+
+def _describe(**kw):
+    return {k: (v.hex() if isinstance(v, bytes) else v) for k, v in kw.items()}
+
+
+METHODS = ["GET", "HEAD", "POST", "PUT", "PATCH", "DELETE", "OPTIONS"]
+URLS = ["http://example.com/", "http://example.com/path?a=1&b=2", "https://example.com/", "https://example.com:8443/p%20q/%C3%A4?x=%26&x=2",
+        "http://example.com:8080/a;b=c?q#frag", "http://192.168.0.1/x", "https://xn--mnchen-3ya.de/", "http://example.com/*"]
+REQ_HEADER_SETS = {
+    "minimal": [],
+    "typical": [("User-Agent", "curl/8.0"), ("Accept", "*/*")],
+    "duplicates": [("Accept", "text/html"), ("X-Dup", "1"), ("accept", "application/json"), ("X-Dup", "1"), ("x-dup", "2")],
+    "cookies": [("Cookie", "a=b; c=d; e=\"f g\""), ("Accept", "*/*")],
+    "two_cookie_headers": [("cookie", "a=b"), ("X-Mid", "m"), ("cookie", "c=d")],
+    "odd_values": [("X-Empty", ""), ("X-Spaces", "a  b"), ("X-Unicode", "grüße ✓"), ("X-Quote", "\"q\" \\ ' ; ,")],
+}
+RESP_HEADER_SETS = {
+    "minimal": [],
+    "typical": [("Server", "nginx"), ("Date", "Sat, 01 Jan 2000 00:00:00 GMT"), ("Cache-Control", "no-cache")],
+    "set_cookies": [("Set-Cookie", "a=b; Path=/; HttpOnly"), ("Set-Cookie", "c=d; Domain=example.com; Secure; SameSite=Lax"), ("set-cookie", "e=f; Expires=Sat, 01 Jan 2000 00:00:00 GMT")],
+    "duplicates": [("Vary", "Accept"), ("X-Dup", "1"), ("vary", "Cookie"), ("X-Dup", "1")],
+    "redirect": [("Location", "https://example.com/next?x=1")],
+    "odd_values": [("X-Empty", ""), ("X-Unicode", "grüße ✓"), ("Link", "<https://a/b>; rel=\"next\", <https://a/c>; rel=\"prev\"")],
+}
+TEXTS = {"ascii": "Hello, world! 0123456789 " * 3, "latin": "Grüße aus München, señor! " * 3, "multibyte": "こんにちは世界 ✓ привет " * 3, "short": "é"}
+CHARSETS = [None, "utf-8", "iso-8859-1", "windows-1252", "utf-16", "shift_jis", "UTF-8"]
+CONTENT_TYPES = ["text/plain", "text/html", "application/json", "application/xml", "application/octet-stream", None]
+CODINGS = [None, "gzip", "deflate", "br", "zstd"]
+BINARIES = {"bytes256": bytes(range(256)), "png": b"\x89PNG\r\n\x1a\n" + bytes(range(200, 256)) * 3, "nul_text": b"abc\x00def" * 10, "high": bytes(range(128, 256))}
+
+
+def _ct(content_type, charset):
+    if content_type is None:
+        return None
+    return content_type + (f"; charset={charset}" if charset else "")
+
+
+def _encode_text(text, charset):
+    try:
+        return text.encode(charset or "utf-8")
+    except (UnicodeEncodeError, LookupError):
+        return None
+
+
+def bounded(tier, seed):
+    import itertools
+    from mitmproxy.net import encoding as E
+    b = Bounded()
+    b.rule = ("flows built the way mitmproxy's HTTP layers build them -> SaveHar.export_har (real file) -> FlowReader on the file; compared per clause of the statement: "
+              "method, URL, HTTP version, request header fields minus Content-Length, request body (POST/PUT/PATCH, decoded), status code, response header fields, decoded response body, order. "
+              "Families: (A) methods x versions x URLs (+CONNECT); (B) request x response header sets x versions; (C) response bodies: texts x content types x charsets x codings, "
+              "binary bodies x codings, empty, body-declared charsets (BOM / HTML meta / XML declaration); (D) request bodies likewise for POST/PUT/PATCH; (E) lists of <= 3 flows (order). "
+              "distinct = parameter tuple; non-trivial = has a body or >= 2 header fields or a list of >= 2")
+    b.bound = "8 methods x 3 versions x 8 URLs; 6x6 header sets x 3 versions; 4 texts x 6 content types x 7 charsets x 5 codings; 4 binaries x 5 codings; lists <= 3 from a pool of 6"
+    b.exhaustive = True
+    versions = MITM_VERSIONS
+
+    def run(key, inp, f, tags=(), nontrivial=True):
+        b.case(key, nontrivial=nontrivial)
+        got, err = export_import([f])
+        if err is not None:
+            cls = [t for t in tags if t in IMPORT_FAILURE_CLASSES]
+            b.fail(f"har.{err[0]}_succeeds" + (f"/{cls[0]}[{IMPORT_FAILURE_CLASSES[cls[0]]}]" if cls and err[0] == "import" else ""), inp, f"{type(err[1]).__name__}: {err[1]}")
+            return
+        if len(got) != 1:
+            b.fail("har.one_flow_per_entry", inp, f"{len(got)} flows")
+            return
+        compare(b, inp, f, got[0], tags)
+
+    # (A) methods x versions x URLs
+    for m, v, u in itertools.product(METHODS, versions, URLS):
+        body = b"a=1&b=2" if m in ("POST", "PUT", "PATCH") else b""
+        rh = [("Content-Type", "application/x-www-form-urlencoded"), ("Content-Length", str(len(body)))] if body else []
+        f = build_flow(m, u, v, rh, body, 200, [("Content-Type", "text/plain"), ("Content-Length", "2")], b"ok")
+        run(("A", m, v, u), _describe(family="A", method=m, version=v, url=u), f, tags=("idn_host",) if "xn--" in u else (), nontrivial=bool(body))
+    for v in versions:
+        for target in ("example.com:443", "example.com:8443"):
+            f = build_flow("CONNECT", target, v, [], b"", 200, [], b"")
+            run(("A", "CONNECT", v, target), _describe(family="A", method="CONNECT", version=v, url=target), f, tags=("host_header_names_default_port",) if target.endswith(":443") else (), nontrivial=False)
+    for u, host in (("http://example.com/x", "example.com:80"), ("https://example.com/x", "example.com:443"), ("http://example.com:8080/x", "example.com:8080"), ("http://example.com/x", "EXAMPLE.com")):
+        f = build_flow("GET", u, "HTTP/1.1", [("Host", host)], b"", 200, [("Content-Length", "0")], b"")
+        run(("A", "host", u, host), _describe(family="A", url=u, host_header=host), f, tags=("host_header_names_default_port",) if host.endswith((":80", ":443")) else (), nontrivial=False)
+    for st in (100, 101, 200, 204, 206, 301, 304, 404, 418, 500, 599, 999):
+        f = build_flow("GET", URLS[1], "HTTP/1.1", [], b"", st, [("Content-Length", "0")], b"")
+        run(("A", "status", st), _describe(family="A", status=st), f, nontrivial=False)
+    # (B) header sets
+    for (rn, rh), (sn, sh), v in itertools.product(REQ_HEADER_SETS.items(), RESP_HEADER_SETS.items(), versions):
+        f = build_flow("GET", URLS[1], v, rh, b"", 200, sh + [("Content-Length", "2")], b"ok")
+        run(("B", rn, sn, v), _describe(family="B", request_headers=rn, response_headers=sn, version=v), f)
+    for name, raw in (("latin1_value", b"caf\xe9"), ("bad_utf8_value", b"\xff\xfe")):
+        f = build_flow("GET", URLS[1], "HTTP/1.1", [], b"", 200, [(b"X-Raw", raw), (b"Content-Length", b"2")], b"ok")
+        run(("B", name), _describe(family="B", response_header_bytes=raw), f, tags=("header_bytes_not_utf8",))
+    # (C) response bodies
+    resp_bodies = []
+    for (tn, text), ct, cs in itertools.product(TEXTS.items(), CONTENT_TYPES, CHARSETS):
+        if ct is None and cs is not None:
+            continue
+        raw = _encode_text(text, cs)
+        if raw is not None:
+            resp_bodies.append((f"text:{tn}", _ct(ct, cs), raw))
+    for bn, raw in BINARIES.items():
+        for ct in ("application/octet-stream", "image/png", None, "text/plain; charset=utf-8", "application/json"):
+            resp_bodies.append((f"binary:{bn}", ct, raw))
+    resp_bodies.append(("empty", "text/plain", b""))
+    resp_bodies.append(("empty", None, b""))
+    declared = [
+        ("bom_utf8", "text/plain; charset=utf-8", "﻿hello".encode("utf-8")),
+        ("bom_utf8_no_charset", "text/plain", "﻿hello wörld".encode("utf-8")),
+        ("bom_utf16_explicit", "text/plain; charset=utf-16le", "﻿hello".encode("utf-16le")),
+        ("html_meta_latin1", "text/html", b'<html><head><meta charset="iso-8859-1"></head><body>caf\xe9</body></html>'),
+        ("html_meta_utf8_matches_default", "text/html", '<html><head><meta charset="utf-8"></head><body>café</body></html>'.encode()),
+        ("xml_decl_latin1", "application/xml", b'<?xml version="1.0" encoding="iso-8859-1"?><a>caf\xe9</a>'),
+        ("css_charset", "text/css", b'@charset "iso-8859-1"; a:before { content: "caf\xe9" }'),
+    ]
+    for name, ct, raw in declared:
+        resp_bodies.append((f"declared:{name}", ct, raw))
+    for (bn, ct, raw), coding in itertools.product(resp_bodies, CODINGS):
+        if tier == "quick" and coding in ("deflate", "zstd") and not bn.startswith(("text:ascii", "binary:bytes256", "empty")):
+            continue
+        wire = raw if coding is None else E.encode(raw, coding)
+        sh = ([("Content-Type", ct)] if ct else []) + ([("Content-Encoding", coding)] if coding else []) + [("Content-Length", str(len(wire)))]
+        for v in (versions if bn in ("text:ascii", "binary:bytes256") else ["HTTP/1.1"]):
+            f = build_flow("GET", URLS[1], v, [], b"", 200, sh, wire)
+            tags = ("resp_body_sniffed",) if sniffed(ct or "", raw) else ()
+            run(("C", bn, ct, coding, v), _describe(family="C", body=bn, content_type=ct, coding=coding, version=v), f, tags)
+    # a content coding mitmproxy cannot decode: the body is exported as it is on the wire
+    for coding in ("x-custom", "compress", "gzip, br"):
+        f = build_flow("GET", URLS[1], "HTTP/1.1", [], b"", 200, [("Content-Type", "text/plain"), ("Content-Encoding", coding), ("Content-Length", "5")], b"hello")
+        run(("C", "unsupported_coding", coding), _describe(family="C", body="text", coding=coding), f, tags=("unsupported_content_coding",))
+    # responses without Content-Length (HTTP/2, chunked, close-delimited)
+    for v, extra in (("HTTP/2.0", []), ("HTTP/3", []), ("HTTP/1.1", [("Transfer-Encoding", "chunked")]), ("HTTP/1.1", [("Connection", "close")])):
+        f = build_flow("GET", URLS[1], v, [], b"", 200, [("Content-Type", "text/plain")] + extra, b"hello")
+        run(("C", "no_content_length", v, str(extra)), _describe(family="C", body="no_content_length", version=v, extra=str(extra)), f)
+    # (D) request bodies
+    for m in ("POST", "PUT", "PATCH"):
+        for (bn, ct, raw), coding in itertools.product(resp_bodies, [None, "gzip"]):
+            if m != "POST" and not bn.startswith(("text:latin", "binary:bytes256", "declared:", "empty")):
+                continue
+            if tier == "quick" and coding and not bn.startswith(("text:ascii", "text:latin", "binary:bytes256")):
+                continue
+            wire = raw if coding is None else E.encode(raw, coding)
+            rh = ([("Content-Type", ct)] if ct else []) + ([("Content-Encoding", coding)] if coding else []) + [("Content-Length", str(len(wire)))]
+            f = build_flow(m, URLS[1], "HTTP/1.1", rh, wire, 200, [("Content-Length", "0")], b"")
+            tags = []
+            if sniffed(ct or "", raw):
+                tags.append("req_body_sniffed")
+            try:
+                f.request.get_text(strict=True)
+            except ValueError:
+                tags.append("body_not_text_in_declared_charset")
+            run(("D", m, bn, ct, coding), _describe(family="D", method=m, body=bn, content_type=ct, coding=coding), f, tuple(tags))
+        f = build_flow(m, URLS[1], "HTTP/1.1", [("Content-Type", "application/x-www-form-urlencoded"), ("Content-Length", "19")], b"a=1&b=%C3%A4&c=x+y&a=2"[:19], 200, [("Content-Length", "0")], b"")
+        run(("D", m, "form"), _describe(family="D", method=m, body="urlencoded form"), f)
+    # (E) lists <= 3: order
+    pool = [
+        lambda i: build_flow("GET", "http://example.com/one", "HTTP/1.1", [], b"", 200, [("Content-Length", "1")], b"1", marker=i),
+        lambda i: build_flow("POST", "https://example.com/two", "HTTP/3", [("Content-Length", "3")], b"x=1", 201, [("Content-Length", "1")], b"2", marker=i),
+        lambda i: build_flow("GET", "http://example.com/one", "HTTP/1.1", [], b"", 404, [("Content-Length", "1")], b"3", marker=i),
+        lambda i: build_flow("PUT", "http://example.com:8080/four", "HTTP/1.1", [("Content-Length", "4")], bytes([0, 255, 1, 254]), 500, [("Content-Type", "image/png"), ("Content-Length", "256")], bytes(range(256)), marker=i),
+        lambda i: build_flow("DELETE", "https://example.com/five?x=1", "HTTP/3", [], b"", 204, [("Content-Length", "0")], b"", marker=i),
+        lambda i: build_flow("CONNECT", "example.com:443", "HTTP/1.1", [], b"", 200, [], b"", marker=i),
+    ]
+    from mitmproxy.test import tflow as _tf
+    for n in (0, 1, 2, 3):
+        for idx in itertools.product(range(len(pool)), repeat=n):
+            flows = [pool[j](i) for i, j in enumerate(idx)]
+            inp = _describe(family="E", pool_indices=list(idx))
+            b.case(("E", idx), nontrivial=n >= 2)
+            got, err = export_import(flows)
+            if err is not None:
+                b.fail(f"har.{err[0]}_succeeds", inp, f"{type(err[1]).__name__}: {err[1]}")
+                continue
+            if len(got) != n:
+                b.fail("har.one_flow_per_entry", inp, f"{len(got)} flows for {n}")
+                continue
+            for i, (f, g) in enumerate(zip(flows, got)):
+                if g.request.headers.get("x-marker") != str(i):
+                    b.fail("har.order", inp, f"position {i} holds marker {g.request.headers.get('x-marker')!r}")
+                compare(b, dict(inp, position=i), f, g)
+    # non-HTTP flows are skipped by the exporter and do not disturb the order of the HTTP flows
+    for pos in range(3):
+        flows = [pool[0](0), pool[1](1)]
+        flows.insert(pos, _tf.ttcpflow())
+        b.case(("E", "tcp_at", pos))
+        got, err = export_import(flows)
+        if err is not None or len(got) != 2 or [g.request.headers.get("x-marker") for g in got] != ["0", "1"]:
+            b.fail("har.order", _describe(family="E", tcp_flow_at=pos), f"{err!r} {got!r:.200}")
+    return b
